@@ -192,11 +192,15 @@ def oracle(ctx, ts, ts2, rp, order, check_idempotent=True):
     return origin
 
 
-def with_json_metadata(ts):
+def with_json_metadata(ts, mode="full"):
+    """JSON schema on the node table; mode 'full' = every row has metadata, 'empty' = the schema only (the whole
+    column is empty: every row decodes to {}), 'mixed' = every third row is empty (True = 'full': old replays)"""
     import tskit
     tables = ts.dump_tables()
     tables.nodes.metadata_schema = tskit.MetadataSchema.permissive_json()
-    md = [json.dumps({"k": i}).encode() for i in range(ts.num_nodes)]
+    if mode == "empty":
+        return tables.tree_sequence()
+    md = [(b"" if (mode == "mixed" and i % 3 == 0) else json.dumps({"k": i}).encode()) for i in range(ts.num_nodes)]
     packed, off = tskit.pack_bytes(md)
     tables.nodes.set_columns(flags=tables.nodes.flags, time=tables.nodes.time, population=tables.nodes.population,
                              individual=tables.nodes.individual, metadata=packed, metadata_offset=off)
@@ -216,9 +220,9 @@ def make_item(rng):
     if rng.random() < 0.35:
         ts = S.stretch_coords(rng, ts)                 # chromosome-scale coordinates, 1-8 bp gaps
         kind += "+stretch"
-    jsonmd = rng.random() < 0.3
+    jsonmd = rng.choice(["full", "empty", "mixed"]) if rng.random() < 0.4 else False
     if jsonmd:
-        ts = with_json_metadata(ts)
+        ts = with_json_metadata(ts, jsonmd)
     if rng.random() < 0.8:
         excluded = S.is_sample_list(ts)
     else:
@@ -315,7 +319,7 @@ def replay(ctx, data):
     case = data["case"]
     ts = gen.ts_from_dict(case["tables"])
     if case.get("json_metadata"):
-        ts = with_json_metadata(ts)
+        ts = with_json_metadata(ts, case["json_metadata"] if isinstance(case["json_metadata"], str) else "full")
     before = len(ctx.oracle_fails)
-    check_one(ctx, ts, S.is_sample_list(ts), "replay", bool(case.get("json_metadata")), None)
+    check_one(ctx, ts, S.is_sample_list(ts), "replay", case.get("json_metadata") or False, None)
     return len(ctx.oracle_fails) == before
